@@ -155,18 +155,25 @@ class AggregateStream(Stream):
 
 class TomlStream(Stream):
     name = "tomls"
-    rule = ("subsets of 9 directories (root, siblings, chains to depth 4, names that sort differently by string and by tuple) in random "
+    rule = ("subsets of up to 10 of 24 directories (root, siblings, chains to depth 4, names that sort differently by string and by tuple, names "
+            "beginning with characters on either side of '.', '/' and 'R': `+vendor`, `#tmp`, ` spaced`, `-x/!y`, `src/+in`, `.dot`, `Zed`, `REUSE`, one-character names `+`, `-`) in random "
             "order x 12 paths x 3 root prefixes (relative, absolute, with '..'): the real _find_relevant_tomls in two orders vs the "
             "model in a third vs the oracle 'ancestor directories, topmost first'; non-trivial = at least two relevant tomls")
-    DIRS = ["", "src", "src/deep", "src/deep/er", "src/deep/er/still", "src-x", "docs", "a", "a/b"]
+    DIRS = ["", "src", "src/deep", "src/deep/er", "src/deep/er/still", "src-x", "docs", "a", "a/b",
+            # names on either side of '.', '/' and 'R' in code-point order
+            "+vendor", "+vendor/in", "#tmp", " spaced", "-x", "-x/!y", "src/+in", "Zed", "REUSE", ".dot", "a/-b", "+", "-", "-/+", "a/+"]
     FILES = ["f.py", "src/f.py", "src/deep/f.py", "src/deep/er/f.py", "src/deep/er/still/f.py", "src-x/f.py", "docs/a/f.py",
-             "a/f.py", "a/b/f.py", "a/b/c/f.py", "srcx/f.py", "src/deeper/f.py"]
+             "a/f.py", "a/b/f.py", "a/b/c/f.py", "srcx/f.py", "src/deeper/f.py",
+             "+vendor/f.py", "+vendor/in/f.py", "+vendor/in/deep/f.py", "#tmp/f.py", " spaced/f.py", "-x/f.py", "-x/!y/f.py", "src/+in/f.py",
+             "Zed/f.py", "REUSE/f.py", ".dot/f.py", "a/-b/f.py", "+vendorx/f.py", "+/f.py", "-/f.py", "-/+/f.py", "a/+/f.py"]
     PREFIX = [".", "/abs/root", "../up/root"]
 
     def cases(self, tier, rng):
         n = 2500 if tier == "thorough" else 400
         for _ in range(n):
-            dirs = rng.sample(self.DIRS, rng.randint(0, len(self.DIRS)))
+            dirs = rng.sample(self.DIRS, rng.randint(0, 9))
+            if rng.random() < 0.7 and "" not in dirs:
+                dirs.insert(rng.randrange(len(dirs) + 1), "")
             yield {"dirs": dirs, "path": rng.choice(self.FILES), "prefix": rng.choice(self.PREFIX), "s": rng.randrange(1 << 30)}
 
     def _real(self, case, dirs):
@@ -685,7 +692,12 @@ class RunsStream(Stream):
     rule = ("generated projects (REUSE.toml hierarchies with all three precedences, hierarchies of closest tables supplying one half each, .reuse/dep5, plain, a root directory itself named "
             "`subprojects`, a Git repository, a Git repository with one to three submodules (a `.git` file or an own repository + .gitmodules; top level and nested; with files lacking information, an own LICENSES/ and REUSE.toml) run without and with --include-submodules; headers in several comment styles incl. stacked terminators such as `MIT */-->`, "
             ".license sidecars of binaries, unparseable expressions, LICENSES/ with unused / deprecated / extension-less / bad "
-            "entries, a top-level subprojects/x/): `lint --json`, `spdx`, `spdx --add-license-concluded` are run (a) serially, (b) with "
+            "entries, a top-level subprojects/x/; in every tree 1-2 files tagged `X+` and 1-2 tagged `X` (alone or inside OR / AND / parentheses) for one "
+            "X of 7, LICENSES/ holding only X+.txt, only X.txt, both or neither in rotation; in every tree with REUSE.toml two to three "
+            "directories whose names begin with a character on either side of `.`, `/` and `R` in code-point order (` spaced`, `!a`, `#tmp`, "
+            "`(third-party)`, `+vendor`, `-x`; `.dot`, `0num`, `:c`, `@at`, `REUSE`, `Zed`, `~t`, non-ASCII; at top level, below `src/`, or "
+            "nested in one another), each with an own REUSE.toml (a closest and an override table, resp. a closest half) whose licence "
+            "conflicts with what the outer REUSE.toml says about the same files): `lint --json`, `spdx`, `spdx --add-license-concluded` are run (a) serially, (b) with "
             "the real pool and with pools of 1, 3, 16 workers whose results come back in shuffled order, (c) with os.walk / glob "
             "handing out shuffled listings, (d) in child interpreters under 6 (thorough 16) PYTHONHASHSEED values and through "
             "`python -m reuse`, (e) from the root, a sub-directory, the parent and an unrelated directory, (f) with the root "
@@ -698,11 +710,12 @@ class RunsStream(Stream):
         n = 35 if tier == "thorough" else 7
         for i in range(n):
             yield {"seed": rng.randrange(1 << 30), "kind": self.KINDS[i % len(self.KINDS)],
-                   "seeds": HASHSEEDS_THOROUGH if tier == "thorough" else HASHSEEDS_QUICK}
+                   "seeds": HASHSEEDS_THOROUGH if tier == "thorough" else HASHSEEDS_QUICK,
+                   "plus": R.PLUS_MODES[i % len(R.PLUS_MODES)]}
 
     def impl(self, case):
         import logging
-        name, files = R.gen_tree(case["seed"], case["kind"])
+        name, files = R.gen_tree(case["seed"], case["kind"], case.get("plus"))
         diffs = []
         nconf = 0
         with cli.scratch("rv-c14-") as base:
@@ -850,8 +863,8 @@ class RunsStream(Stream):
         return (case["seed"], case["kind"]) if r["files"] >= 5 and r["compliant"] is False else None
 
     def show(self, case):
-        name, files = R.gen_tree(case["seed"], case["kind"])
-        return {"seed": case["seed"], "kind": case["kind"], "root_name": name, "files": sorted(files)[:40]}
+        name, files = R.gen_tree(case["seed"], case["kind"], case.get("plus"))
+        return {"seed": case["seed"], "kind": case["kind"], "plus": case.get("plus"), "root_name": name, "files": sorted(files)[:60]}
 
 
 def table_roundtrip():
